@@ -9,6 +9,54 @@ TRUST = ("Trusted base: clang 14 front end and its debug info, the LLVM-14 IR re
          "the rule tables documented in DESIGN.md. ")
 
 CLAIMS = {
+    "C01": dict(
+        category="other",
+        technique="static analysis: lockset/region discipline, escape-guard and CRC-fold data-flow rules over the flush routine, reference CRC table, stale-index and capacity-guard path rules",
+        text=("Decides, over all paths of the sender's functions: the send-buffer mutex covers every access to batch/staging buffer, fill index, capacity and every "
+              "write-callback call (no torn/interleaved packets); the CRC table equals CRC-8/0x8C computed by the checker; every byte stored to the staging buffer is a "
+              "delimiter literal, escape prefix + v^0x20, or guarded against 0xFE/0xFD (payload and CRC trailer); the emitted byte is the byte folded into the CRC; the "
+              "append offset is the current fill index (no stale copy across a flush); appends happen behind the capacity comparison and capacity stores are >= 64; "
+              "appends happen only behind admission. 'Exactly once' and byte identity with the arguments are value-level and not decided."),
+        note=TRUST + "Roles (flush routine, staging/batch buffer, fill index) are located structurally; if a role cannot be located the check exits 2.",
+        design="DESIGN.md section 4, C01",
+    ),
+    "C03": dict(
+        category="other",
+        technique="static analysis: who-may-write + guard-dominance on the budget counter, queue API typestate, must-pass-through (retry after release), value provenance of expiry clock",
+        text=("Decides structural necessary conditions of the per-node response budget: counter written only as =0 / +=r behind 'counter+r<=48' with the same r / -=r; r always "
+              "bidib_response_info[type][1]; deferred and awaited queues used as FIFOs of fresh entries; admission 'true' only behind an empty deferred queue; a deferred "
+              "message leaves the queue only where it is transmitted; every release of budget is followed by a retry before the mutex is dropped; expiry age counts from "
+              "admission time. The 48-byte bound over histories, expiry timing and answer matching are not decided."),
+        note=TRUST + "Roles located by field use (current_max_respond, message_queue, response_queue).",
+        design="DESIGN.md section 4, C03",
+    ),
+    "C04": dict(
+        category="other",
+        technique="static analysis: guard-dominance of transmit points by the stall check (interprocedural), loop/registration path rules, drain must-pass-through, constant-propagating walk of the dispatcher",
+        text=("Decides: every append to the wire buffer is gated by a successful stall check (in the function or at all call sites); the stall check walks ancestors and "
+              "registers the waiter before reporting 'stalled'; clearing a stall drains the waiter list until empty and retries each waiter; the stall flag has two writers; "
+              "MSG_STALL always reaches the stall handler (debug mode too). Nested stall histories are not decided."),
+        note=TRUST + "Reading note: the ancestor walk stops at address byte 0, so a stall reported by the root interface is never consulted (not decidable by a path rule).",
+        design="DESIGN.md section 4, C04",
+    ),
+    "C05": dict(
+        category="other",
+        technique="static analysis: critical-section span rule on the lockset engine, inductive store invariant on the counter, dominance (reset before enumeration)",
+        text=("Decides the structural necessary conditions of consecutive numbering: one lock must span allocation..hand-off (SPAN; today violated by design and recorded as "
+              "known findings), counter stores keep it in [1,255] with wrap 255->1, 0 stamped only when numbering is disabled, node table reset precedes re-enumeration, "
+              "counter accessed under the node-table mutex. Consecutiveness of concrete transcripts under every schedule is not decided."),
+        note=TRUST + "Known findings: three C05-SPAN entries in known_findings.json (non-atomic allocate/admit/append).",
+        design="DESIGN.md section 4, C05",
+    ),
+    "C06": dict(
+        category="other",
+        technique="static analysis: exhaustive path-sensitive walk of the dispatcher for all 256 type codes (ownership typestate), README table cross-check, queue API/eviction/ownership rules",
+        text=("For each of the 256 type codes, on every path of the dispatcher the buffer is consumed exactly once and never used afterwards; destinations agree with the README "
+              "lists parsed at run time; destination-selecting branches depend on message bytes only; debug shortcut for all types but MSG_STALL; uplink queues FIFO-only, "
+              "eviction test (128) precedes push, reader returns the stored buffer and frees only the entry, every queue access under the queue mutex. Byte equality is not decided."),
+        note=TRUST + "Message type names from clang -E -dM; several macro names share values (category bases).",
+        design="DESIGN.md section 4, C06",
+    ),
     "C11": dict(
         category="proof",
         technique="static analysis: path-sensitive lockset dataflow over LLVM IR, all functions x calling contexts; lock-order graph with modes",
